@@ -53,7 +53,7 @@ ASSUME = [
     "changed by the generated functions); the unpruned sequences of length <= L do not rely on that",
     "for two parents / diamonds the reference resolver implements the rule documented in compiler.c (the latest inherit with a definition "
     "wins; '::f' takes the first parent in which a definition is found); visibility of functions restricted only by an inherit "
-    "modifier is checked differentially (cold vs history, first vs second compile, compiled vs binary), not against an expected value",
+    "modifier: call_other must not run them (reference model of copy_function's typemod rule)",
     "the 14 compression shapes are run only in the ASan builds (a corrupted table crashes the plain build without attribution)",
 ]
 
@@ -86,9 +86,10 @@ def run(ck):
     ex = build(ck)
     T = 120000
     if ck.tier == "quick":
-        ck.enum(ex["h_c07_small"], ["--len=2", "--prune-depth=8", "--salts=1"], "small-l2", batch=1, deadline_s=150, timeout_ms=T)
-        ck.enum(ex["h_c07_full_plain"], ["--len=2", "--salts=1", "--no-compress=1"], "full-l2", batch=1, deadline_s=60, timeout_ms=T)
-        ck.enum(ex["h_c07_small"], ["--len=1", "--salts=1", "--bin=1"], "bin-l1", batch=1, deadline_s=90, timeout_ms=T)
+        ck.enum(ex["h_c07_small"], ["--len=1", "--salts=1"], "small-l1-asan", batch=1, deadline_s=50, timeout_ms=T)
+        ck.enum(ex["h_c07_small_plain"], ["--len=2", "--prune-depth=8", "--salts=1", "--no-compress=1"], "small-l2", batch=1, deadline_s=70, timeout_ms=T)
+        ck.enum(ex["h_c07_full_plain"], ["--len=2", "--salts=1", "--no-compress=1"], "full-l2", batch=1, deadline_s=50, timeout_ms=T)
+        ck.enum(ex["h_c07_small"], ["--len=1", "--salts=1", "--bin=1"], "bin-l1", batch=1, deadline_s=60, timeout_ms=T)
     else:
         ck.enum(ex["h_c07_small"], ["--len=2", "--prune-depth=8", "--salts=4"], "small-l2-s4", batch=1, deadline_s=500, timeout_ms=T)
         ck.enum(ex["h_c07_small_plain"], ["--len=3", "--salts=1", "--no-compress=1"], "small-l3", batch=1, deadline_s=800, timeout_ms=T)
